@@ -55,14 +55,31 @@ func (r *Ubios) refreshLocked() {
 	}
 }
 
+// refresh reloads the table when it has expired. It takes the write lock for
+// that, so it must be called without r.mu held.
+func (r *Ubios) refresh() {
+	r.once.Do(r.init)
+	if !r.supported {
+		return
+	}
+	r.mu.RLock()
+	expired := !time.Now().Before(r.expires)
+	r.mu.RUnlock()
+	if expired {
+		r.mu.Lock()
+		r.refreshLocked()
+		r.mu.Unlock()
+	}
+}
+
 func (r *Ubios) Name() string {
 	return "ubios"
 }
 
 func (r *Ubios) Visit(f func(name string, macs []string)) {
+	r.refresh()
 	r.mu.RLock()
 	defer r.mu.RUnlock()
-	r.refreshLocked()
 	m := map[string][]string{}
 	for mac, names := range r.macs {
 		for _, name := range names {
@@ -75,9 +92,9 @@ func (r *Ubios) Visit(f func(name string, macs []string)) {
 }
 
 func (r *Ubios) LookupMAC(mac string) []string {
+	r.refresh()
 	r.mu.RLock()
 	defer r.mu.RUnlock()
-	r.refreshLocked()
 	return r.macs[mac]
 }
 
